@@ -84,6 +84,9 @@ CHECKS = {
     "C02": {"engine": "e_static", "fuzz": [{"engine": "e_static", "prop": "C02", "seconds": 240, "jobs": 6}],
             "quick": {"shards": 8, "cases": 4000}, "thorough": {"shards": 16, "cases": 150000}},
     "C03": {"engine": "e_seg",
+            # one more process per tier: the "beyond 2^32 points in one builder" class (functor-fed, about a minute per case)
+            "extra_jobs": {"quick": [{"tag": "beyond32", "env": {"VF_C03_BEYOND32": "1"}, "cases": 1, "shrink_budget": 1}],
+                           "thorough": [{"tag": "beyond32", "env": {"VF_C03_BEYOND32": "1"}, "cases": 4, "shrink_budget": 2}]},
             "quick": {"shards": 8, "cases": 4000}, "thorough": {"shards": 16, "cases": 120000}},
     "C04": {"engine": "e_seg",
             "quick": {"shards": 8, "cases": 2500}, "thorough": {"shards": 16, "cases": 60000}},
